@@ -1,5 +1,6 @@
 mod crashsim;
 mod eng;
+mod guards;
 mod hgen;
 mod model;
 mod props;
@@ -9,6 +10,7 @@ mod stmt;
 mod sup;
 mod triggers;
 mod util;
+mod walsim;
 mod worker;
 
 use std::io::{BufRead, Write};
@@ -89,6 +91,19 @@ fn main() {
             // print the generated case for (property, index)
             let idx: u64 = args[3].parse().unwrap();
             println!("{}", serde_json::to_string_pretty(&worker::case_json(&args[2], verif_seed(), idx)).unwrap());
+            0
+        }
+        Some("audit") => {
+            // audit PROP LO HI: generated cases that trip their own guards
+            let (lo, hi): (u64, u64) = (args[3].parse().unwrap(), args[4].parse().unwrap());
+            for i in lo..hi {
+                let v = worker::case_json(&args[2], verif_seed(), i);
+                if let Ok(c) = serde_json::from_value::<run::SqlReplay>(v) {
+                    if let Some((e, g)) = run::audit_generated(&c) {
+                        println!("idx {i}: event {e} trips {g}: {}", c.events[e].short());
+                    }
+                }
+            }
             0
         }
         Some("show") => {
